@@ -221,6 +221,9 @@ claim("C13",
       "translated view, translated actions give the re-keyed world and the translated view); C13_equivariant_ready states the "
       "hypotheses as the boolean `equiv_ready`, which is evaluated inside Coq for the mapping current->original addresses before "
       "every action the implementation executes on a re-labelled world (when action and view mention scenario objects only). "
+      "C13_start_positions (Proofs/InitEquiv.v): the initial view built on the re-keyed world from the translated start position "
+      "is the translated initial view, on the scenario's objects ('all_local', random picks, neighbouring scenario networks "
+      "included). A full-stack probe on the real coordinator checks joins and resets after re-labellings. "
       "One known finding (sampler fails for private networks in different RFC 1918 blocks).",
       "Trusted: Coq kernel + VM; std++; Faker/random are an oracle (the published maps are checked, their distribution is not); "
       "hand-written Remap/World/Load models tied by differential execution; cyst stub.",
